@@ -776,13 +776,29 @@ impl AutosarModel {
             filemap.insert(filename, new_file.downgrade());
         }
 
-        // by inserting copies of the sub elements of <AUTOSAR>, we automatically
-        // get up-to-date identifiables and reference_origins
+        // The duplicate must have exactly the same content as the original. `create_copied_sub_element` can't be used here,
+        // because it leaves out everything that is not valid in the lowest version of all files of the model.
+        let copy_root = copy.root_element();
         for element in self.root_element().sub_elements() {
-            copy.root_element().create_copied_sub_element(&element)?;
+            let copied_element = element.0.read().deep_copy_exact();
+            copied_element.set_parent(ElementOrModel::Element(copy_root.downgrade()));
+            copy_root.0.write().content.push(ElementContent::Element(copied_element));
+        }
+        // register all identifiable elements and all references of the duplicate
+        for (_, copy_elem) in copy.elements_dfs() {
+            if copy_elem.is_identifiable() {
+                if let Ok(path) = copy_elem.path() {
+                    copy.add_identifiable(path, copy_elem.downgrade());
+                }
+            }
+            if copy_elem.is_reference() {
+                if let Some(CharacterData::String(reference)) = copy_elem.character_data() {
+                    copy.add_reference_origin(&reference, copy_elem.downgrade());
+                }
+            }
         }
 
-        // `create_copied_sub_element` does not transfer information about file membership
+        // the copied elements do not have any information about file membership
         // this needs to be added back
         let orig_iter = self.elements_dfs();
         let copy_iter = copy.elements_dfs();
